@@ -15,7 +15,7 @@
    lifecycle streams and through the model correspondence, in which every modelled panic site and loop bound is
    explicit (partial, see DESIGN.md). *)
 From UF Require Import Consts Base Frame Codec Sender Receiver SendRate FrameQueue HalfConn Endpoint
-                       CodecTotal SenderProofs ReceiverProofs SendRateProofs FrameQueueProofs HcTotal HcFlushTotal HcStepTotal.
+                       CodecTotal SenderProofs ReceiverProofs SendRateProofs FrameQueueProofs HcTotal HcFlushTotal HcStepTotal EndpointTotal.
 
 Theorem C03_read_total : forall bs : list N, exists r, read_frame bs = Ok r.
 Proof. exact read_frame_total. Qed.
@@ -59,6 +59,15 @@ Print Assumptions C03_half_connection_total.
 Theorem C03_flush_terminates :
   forall c seed ops, cfg_ok c -> Forall op_ok ops -> exists r, hc_flush (fold_left hc_apply ops (hc_new c seed)) = Ok r.
 Proof. exact hc_flush_never_hangs. Qed.
+
+(* The Client as a whole: for every history of steps (any datagrams made of bytes, any clock values), flushes,
+   sends and disconnect calls, every further step or call returns normally. *)
+Theorem C03_client_total :
+  forall ec nonce t0 seed ops o,
+    nonce < pow32 -> Forall cl_op_ok ops -> cl_op_ok o ->
+    cl_op_result (fold_left cl_apply ops (fst (client_connect ec nonce t0 seed))) o = Ok tt.
+Proof. exact client_never_panics_or_hangs. Qed.
+Print Assumptions C03_client_total.
 
 (* the configurations Client and Server actually construct (Endpoint.v, hc_config_of) satisfy cfg_ok *)
 Theorem C03_endpoint_configs_ok :
